@@ -387,6 +387,40 @@ def check_panic(cx, chk):
 
 # ----------------------------------------------------------------- identifiers
 
+def check_keywords(cx, chk, R):
+    cg = cx.codegen
+    # safe_ident's keyword table
+    kw = None
+    for c_ in cg.j.get("consts", []):
+        if c_["path"].endswith("RUST_KEYWORDS"):
+            kw = c_
+    src = cx.read_repo("codegen/src/common.rs")
+    m = re.search(r"RUST_KEYWORDS:\s*\[&str;\s*\d+\]\s*=\s*\[(.*?)\];", src, re.S)
+    table = set(re.findall(r'"(\w+)"', re.sub(r"//[^\n]*", "", m.group(1)))) if m else set()
+    strict = {"as", "break", "const", "continue", "crate", "else", "enum", "extern", "false", "fn", "for", "if", "impl", "in", "let", "loop",
+              "match", "mod", "move", "mut", "pub", "ref", "return", "self", "Self", "static", "struct", "super", "trait", "true", "type",
+              "unsafe", "use", "where", "while", "async", "await", "dyn"}
+    reserved = {"abstract", "become", "box", "do", "final", "macro", "override", "priv", "typeof", "unsized", "virtual", "yield", "try"}
+    not_rawable = {"crate", "self", "Self", "super"}
+    if not table:
+        chk.anchor_missing(R, "RUST_KEYWORDS table")
+    else:
+        missing = (strict | reserved) - table - not_rawable
+        for k in sorted(missing):
+            chk.violation(R, "keyword-missing %s" % k, "keyword `%s` is not escaped by safe_ident: a rule or field of that name yields code that does not compile" % k)
+        if not missing:
+            chk.ok(R, "keyword table", {"escaped": len(table & (strict | reserved)), "reference": "Rust 2021 strict + reserved keywords"})
+        # keywords that cannot be raw identifiers
+        for k in sorted(not_rawable):
+            if k in table:
+                chk.violation(R, "keyword-not-rawable %s" % k,
+                              "`%s` is escaped as r#%s, which proc_macro2 rejects with a panic: a rule/field named `%s` makes the compiler panic" % (k, k, k))
+            else:
+                chk.violation(R, "keyword-unescaped %s" % k,
+                              "`%s` cannot be a raw identifier and is emitted verbatim: a rule/field named `%s` yields code that does not compile" % (k, k))
+
+
+
 def check_ident(cx, chk):
     """Grammar strings must not reach Ident::new / format_ident! unvalidated (they panic on non-identifiers)."""
     cg = cx.codegen
@@ -430,35 +464,7 @@ def check_ident(cx, chk):
             chk.ok("C15.ident", "%s %r" % (short(p), prefix), {"fn": short(p), "template_prefix": prefix, "why": "literal identifier-start prefix + identifier-character interpolations"})
         else:
             unvalidated.append((p, b, i, t))
-    # safe_ident's keyword table
-    kw = None
-    for c_ in cg.j.get("consts", []):
-        if c_["path"].endswith("RUST_KEYWORDS"):
-            kw = c_
-    src = cx.read_repo("codegen/src/common.rs")
-    m = re.search(r"RUST_KEYWORDS:\s*\[&str;\s*\d+\]\s*=\s*\[(.*?)\];", src, re.S)
-    table = set(re.findall(r'"(\w+)"', re.sub(r"//[^\n]*", "", m.group(1)))) if m else set()
-    strict = {"as", "break", "const", "continue", "crate", "else", "enum", "extern", "false", "fn", "for", "if", "impl", "in", "let", "loop",
-              "match", "mod", "move", "mut", "pub", "ref", "return", "self", "Self", "static", "struct", "super", "trait", "true", "type",
-              "unsafe", "use", "where", "while", "async", "await", "dyn"}
-    reserved = {"abstract", "become", "box", "do", "final", "macro", "override", "priv", "typeof", "unsized", "virtual", "yield", "try"}
-    not_rawable = {"crate", "self", "Self", "super"}
-    if not table:
-        chk.anchor_missing("C15.ident", "RUST_KEYWORDS table")
-    else:
-        missing = (strict | reserved) - table - not_rawable
-        for k in sorted(missing):
-            chk.violation("C15.ident", "keyword-missing %s" % k, "keyword `%s` is not escaped by safe_ident: a rule or field of that name yields code that does not compile" % k)
-        if not missing:
-            chk.ok("C15.ident", "keyword table", {"escaped": len(table & (strict | reserved)), "reference": "Rust 2021 strict + reserved keywords"})
-        # keywords that cannot be raw identifiers
-        for k in sorted(not_rawable):
-            if k in table:
-                chk.violation("C15.ident", "keyword-not-rawable %s" % k,
-                              "`%s` is escaped as r#%s, which proc_macro2 rejects with a panic: a rule/field named `%s` makes the compiler panic" % (k, k, k))
-            else:
-                chk.violation("C15.ident", "keyword-unescaped %s" % k,
-                              "`%s` cannot be a raw identifier and is emitted verbatim: a rule/field named `%s` yields code that does not compile" % (k, k))
+    check_keywords(cx, chk, "C15.ident")
     if unvalidated:
         byfn = {}
         for (p, b, i, t) in unvalidated:
